@@ -294,7 +294,16 @@ class ConvexPolyhedron(GeoBody):
         number_points = len(self.point_set)
         number_segments = len(self.segment_set)
         number_polygons = len(self.convex_polygons)
-        return number_points - number_segments + number_polygons == 2
+        if number_points - number_segments + number_polygons != 2:
+            return False
+        # Euler's formula alone also holds for some face sets that are not
+        # closed (e.g. two opposite faces of a cube: 8 - 8 + 2). In a closed
+        # polyhedron every edge belongs to exactly two faces.
+        edge_count = {}
+        for convex_polygon in self.convex_polygons:
+            for segment in convex_polygon.segments():
+                edge_count[segment] = edge_count.get(segment, 0) + 1
+        return all(count == 2 for count in edge_count.values())
 
     def _check_normal(self):
         """return True if all the polygons' normals point to the outside"""
